@@ -111,9 +111,21 @@ class C10(core.Check):
         "corner pairs and 9 corner numbers (invalid ones included), the list form of set_patch (any selection and order of "
         "sides), remove_edges (no argument / empty list / corner list) and one edge datum put on two edges by corner "
         "numbers, observed on the assembled mesh; face quads are general (2/3), planar with a reflex corner, or "
-        "millimetre-sized and warped, and the direction of Face.normal is compared with the model's exact vector. Thorough tier also "
+        "millimetre-sized and warped, and the direction of Face.normal is compared with the model's exact vector. Addressing cases run on a "
+        "Loft, Box, Extrude, Revolve or Wedge (default patches, inner/outer patch, Angle data on the four vertical edges), with "
+        "add_side_edge / Face.add_edge by corner number and corner numbers -1..8. Geometric cases: affine images of the unit cube "
+        "(dyadic matrices, |det| >= 4, 15 % inside-out, half with jittered corners) with get_face for all sides, centres, normals and "
+        "get_closest_side / get_closest_face / get_normal_face queries (margin between best and second best); Box from two arbitrary "
+        "corners, Extrude by a vector or a scalar, Connector between laterally displaced boxes (choice of faces only). Thorough tier also "
         "enumerates all single calls exhaustively. Non-trivial = at least one call that changes the object; distinct = "
         "different call sequence or geometry."
+    )
+    partial_note = (
+        "Theorems: face re-indexing for all faces / counts / distances, addressing on all sides, corner pairs and corners, the "
+        "tables against the hexahedron and each other, outward normals for every affine image of the cube, first-minimum / "
+        "first-maximum choice of get_closest_side / get_normal_face. Not theorems: float rounding of norms and cosines (the "
+        "generator keeps a margin), python's deque.rotate beyond counts -9..9 (the model has period 4), Extrude by a scalar "
+        "amount and Connector's alignment measure (square roots; oracle only), which corner of a Connector becomes which (C18)."
     )
     assumptions = [
         "the face/operation model mirrors python list semantics (deque.rotate, list.reverse, stable sort) — validated by correspondence",
